@@ -695,7 +695,7 @@ def main(argv):
         raise MachineryError("too few inputs enumerated")
     if "--replay" not in argv:
         items = list(enumerate(items))
-    round_size = 36000
+    round_size = 24000   # records are a few kB each: keeps the parent below ~2 GB
     states = 0
     wall = 0.0
     total = 0
@@ -726,6 +726,7 @@ def main(argv):
             bytag[t] = bytag.get(t, 0) + 1
         for k, v in input_stats(cases).items():
             stats[k] = stats.get(k, 0) + v
+        print(f"  records {r0 + len(part)}/{len(items)} validated, {nrej} rejected", file=sys.stderr, flush=True)
         samples += [cases[len(cases) // 3], cases[-1]]
     if "--replay" not in argv:
         # the audit families must all be there, whatever the verdict
